@@ -113,6 +113,11 @@ def rest_rules(ctx):
             rule_ordered_collects(d5, "C05.O", fv, n_coll)
             rule_sink_sequential(d5, "C05.O", fv, who)
             rule_flush_pairing(d5, "C05.F", fv, who)
+    # the s2m listing is the same set of lines on every run: each line is written whole under the writer lock
+    from . import c10
+    fs2_ = ctx.view(c10.S2M)
+    if fs2_ is not None:
+        c10.s2m_rules(dep(ctx, "C17", "C10"), fs2_)
     # the counter rebuilds its whole (partition, chunk) grid and the coverage table on every run
     fcc, fcm, fcn = ctx.view(c07.CHUNK), ctx.view(c07.MERGE), ctx.view(c07.COUNT)
     d = dep(ctx, "C17", "C07")
